@@ -267,8 +267,9 @@ Lemma holds_after_write p a n v k :
 Proof.
   unfold spec_slot. intros Hns Hk. destruct ((a <? p_narr p) && p_alive p a) eqn:G; [|congruence].
   destruct (p_info p n) as [inf|] eqn:E; [|congruence].
-  rewrite Hk. cbn [fst with_val]. unfold holds. cbn [p_narr p_alive p_info p_val]. rewrite G, E.
-  split; [reflexivity|]. split; [discriminate|]. unfold upd2. now rewrite !Nat.eqb_refl.
+  rewrite Hk. cbn [fst]. apply Bool.andb_true_iff in G. destruct G as [G1 G2].
+  apply holds_intro; cbn [with_val p_narr p_alive p_info p_val]; auto; [congruence|].
+  unfold upd2. now rewrite !Nat.eqb_refl.
 Qed.
 
 (* get returns the last value set for that (array, name): registrations, growth of the
@@ -306,9 +307,11 @@ Proof.
   destruct ((a <? p_narr p) && p_alive p a) eqn:G; [|discriminate].
   destruct (p_info p n) as [inf|] eqn:E; [|discriminate].
   destruct (p_val p a n =? old)%N eqn:Eo; cbn [fst snd with_val] in *.
-  - inversion H2; subst r. unfold holds. cbn [p_narr p_alive p_info p_val]. rewrite G, E.
-    split; [reflexivity|]. split; [discriminate|]. unfold upd2. now rewrite !Nat.eqb_refl.
-  - inversion H2; subst r. unfold holds. rewrite G, E. split; [reflexivity|]. split; [discriminate|reflexivity].
+  - inversion H2; subst r. apply Bool.andb_true_iff in G. destruct G as [G1 G2].
+    apply holds_intro; cbn [with_val p_narr p_alive p_info p_val]; auto; [congruence|].
+    unfold upd2. now rewrite !Nat.eqb_refl.
+  - inversion H2; subst r. apply Bool.andb_true_iff in G. destruct G as [G1 G2].
+    apply holds_intro; auto. congruence.
 Qed.
 
 (* test-and-set decides on the value a get would have returned: it stores only on a match *)
@@ -364,13 +367,13 @@ Proof.
     intros H; apply nodupb_complete in H; vm_compute in H; discriminate.
 Qed.
 
-(* ... after which unregistering d removes c's entry: the client still holds an id for c
-   that lookup no longer knows, and lookup still knows d *)
-Definition w_wrong_entry : list op := w_id_reuse ++ [Unreg 3].
+(* ... after which unregistering c removes d's entry (the first one carrying id 0): the
+   client still holds an id for d that lookup no longer knows, and lookup still knows c *)
+Definition w_wrong_entry : list op := w_id_reuse ++ [Unreg 2].
 Lemma P_lookup_held_refuted :
   let s := reached none_fixed w_wrong_entry in
-  cl_find 2 (s_cl s) = Some 0 /\ lookup 2 (s_reg s) = None /\
-  cl_find 3 (s_cl s) = None /\ lookup 3 (s_reg s) = Some (0, 7%N).
+  cl_find 3 (s_cl s) = Some 0 /\ lookup 3 (s_reg s) = None /\
+  cl_find 2 (s_cl s) = None /\ lookup 2 (s_reg s) = Some (0, 7%N).
 Proof. vm_compute. repeat split. Qed.
 
 (* ... and a get through an identifier whose entry is gone dereferences NULL *)
